@@ -43,6 +43,10 @@ func readGposSubtable(p *parser.Parser, pos int64, meta *LookupMetaInfo) (Subtab
 	}
 
 	reader, ok := gposReaders[10*meta.LookupType+format]
+	if meta.LookupType >= 10 || format >= 10 {
+		// the key above is computed in uint16 arithmetic
+		ok = false
+	}
 	if !ok {
 		return nil, &parser.InvalidFontError{
 			SubSystem: "sfnt/opentype/gtab",
@@ -219,6 +223,9 @@ func (l *Gpos1_2) encode() []byte {
 	}
 	coverageOffset := total
 	total += l.Cov.EncodeLen()
+	if coverageOffset > 0xFFFF || valueCount > 0xFFFF {
+		panic("coverage offset overflow")
+	}
 
 	buf := make([]byte, 0, total)
 	buf = append(buf,
@@ -408,6 +415,9 @@ func (l Gpos2_1) encode() []byte {
 	}
 	pairSetOffsets := make([]uint16, pairSetCount)
 	for i, adj := range adjust {
+		if total > 0xFFFF {
+			panic("pair set offset overflow")
+		}
 		pairSetOffsets[i] = uint16(total)
 		total += 2 + 2*len(adj)
 		for _, v := range adj {
